@@ -13,7 +13,10 @@ void pbt_warmup() {}
 using namespace pbt;
 
 namespace {
-const int NE = 3, NL = 4, NS = 2, NK = 2;  // emitters, listeners, signals per emitter, slots per signal kind per listener
+const int NE = 3, NL = 4, NS = 3, NK = 2;  // emitters, listeners, signals per emitter, slots per signal kind per listener
+// Signals 0 (sigA) and 2 (sigC) have the same signature and take the same slot functions (slotA0/slotA1): one slot of one listener can
+// be connected to two signals of one emitter, and a disconnect must then name the signal as well. Signal 1 (sigB) carries an int.
+inline int slotType(int s) { return s == 1 ? 1 : 0; }
 
 struct H;  // harness state
 H* g = nullptr;
@@ -21,6 +24,8 @@ H* g = nullptr;
 struct Em : public Callback::Emitter {
   void fireA() { emit(&Em::sigA); }
   void fireB(int x) { emit(&Em::sigB, x); }
+  void fireC() { emit(&Em::sigC); }
+  void sigC() {}
   void sigA() {}
   void sigB(int) {}
 };
@@ -50,6 +55,7 @@ struct H {
   void doConnect(int e, int s, int l, int k) {
     if (!em[e] || !li[l] || hasLive(e, s, l, k)) { ctx->count("skipped"); return; }
     if (s == 0) { if (k == 0) Callback::connect(em[e], &Em::sigA, li[l], &Li::slotA0); else Callback::connect(em[e], &Em::sigA, li[l], &Li::slotA1); }
+    else if (s == 2) { if (k == 0) Callback::connect(em[e], &Em::sigC, li[l], &Li::slotA0); else Callback::connect(em[e], &Em::sigC, li[l], &Li::slotA1); if (hasLive(e, 0, l, k)) ctx->label("slot_connected_to_two_signals"); }
     else { if (k == 0) Callback::connect(em[e], &Em::sigB, li[l], &Li::slotB0); else Callback::connect(em[e], &Em::sigB, li[l], &Li::slotB1); }
     { LedgerPause lp; recs[e][s].push_back(Rec{l, k, depth[e][s] > 0 ? 1 : 0}); }
     if (depth[e][s] > 0) ctx->label("connect_during_emission_of_same_signal");
@@ -58,7 +64,9 @@ struct H {
     if (!em[e] || !li[l]) { ctx->count("skipped"); return; }
     bool live = hasLive(e, s, l, k);
     if (!live && ctx->excluded("C12-disconnect-never-connected")) return;
+    if (slotType(s) == 0 && hasLive(e, 2 - s, l, k)) ctx->label(live ? "disconnect_one_of_two_signals" : "disconnect_unconnected_signal_of_connected_slot");
     if (s == 0) { if (k == 0) Callback::disconnect(em[e], &Em::sigA, li[l], &Li::slotA0); else Callback::disconnect(em[e], &Em::sigA, li[l], &Li::slotA1); }
+    else if (s == 2) { if (k == 0) Callback::disconnect(em[e], &Em::sigC, li[l], &Li::slotA0); else Callback::disconnect(em[e], &Em::sigC, li[l], &Li::slotA1); }
     else { if (k == 0) Callback::disconnect(em[e], &Em::sigB, li[l], &Li::slotB0); else Callback::disconnect(em[e], &Em::sigB, li[l], &Li::slotB1); }
     if (!live) { ctx->label("disconnect_not_connected"); return; }
     auto& v = recs[e][s];
@@ -75,7 +83,7 @@ struct H {
     { LedgerPause lp; frames.push_back(Frame{e, s, 0, false, arg}); }
     depth[e][s]++;
     Em* target = em[e];
-    if (s == 0) target->fireA(); else target->fireB(arg);
+    if (s == 0) target->fireA(); else if (s == 2) target->fireC(); else target->fireB(arg);
     Frame f = frames.back(); frames.pop_back();
     if (!f.dead) {
       // every record that is connected now and not yet visited should have been called
@@ -110,14 +118,14 @@ struct H {
     if (frames.empty()) ctx->fail("unexpected-call", "slot invoked although no emission is in progress");
     Frame& f = frames.back();
     if (f.dead) { char d[160]; snprintf(d, sizeof d, "l%d.slot%c%d invoked by an emission of destroyed emitter e%d", l, 'A' + s, k, f.e); ctx->fail("call-after-emitter-destroyed", d); }
-    if (f.s != s) ctx->fail("unexpected-call", "slot of the other signal invoked");
+    if (slotType(f.s) != s) ctx->fail("unexpected-call", "slot of a signal with the other signature invoked");
     if (s == 1 && arg != f.arg) ctx->fail("wrong-argument", "signal argument differs");
     auto& v = recs[f.e][f.s];
     size_t i = f.cursor; while (i < v.size() && v[i].state != 0) ++i;
     if (i >= v.size() || v[i].l != l || v[i].k != k) {
       char d[240];
-      if (i < v.size()) snprintf(d, sizeof d, "e%d.sig%c invoked l%d.slot%c%d, the model expects l%d.slot%c%d next", f.e, 'A' + s, l, 'A' + s, k, v[i].l, 'A' + s, v[i].k);
-      else snprintf(d, sizeof d, "e%d.sig%c invoked l%d.slot%c%d, the model expects no further call (not connected, connected during this emission, or disconnected)", f.e, 'A' + s, l, 'A' + s, k);
+      if (i < v.size()) snprintf(d, sizeof d, "e%d.sig%c invoked l%d.slot%c%d, the model expects l%d.slot%c%d next", f.e, 'A' + f.s, l, 'A' + s, k, v[i].l, 'A' + s, v[i].k);
+      else snprintf(d, sizeof d, "e%d.sig%c invoked l%d.slot%c%d, the model expects no further call (not connected, connected during this emission, or disconnected)", f.e, 'A' + f.s, l, 'A' + s, k);
       ctx->fail("unexpected-call", d);
     }
     f.cursor = i + 1;
@@ -151,16 +159,17 @@ void pbt_generate(Rng& r, int size, Case& c) {
   static const char* reacts[] = {"r_none", "r_connect", "r_disconnect", "r_emit", "r_dell", "r_dele"};
   static const int wr[] = {20, 22, 25, 18, 9, 6};
   int focusE = (int)r.below(NE), focusS = (int)r.below(NS);  // concentrate on one signal so that chains get long
+  bool pairAC = r.chance(35);                                  // ... or on the two signals that share their slot functions
   std::vector<Op> top, re;
   for (int k = 0; k < nops; ++k) {
     int o = r.weighted(wt, 7);
-    long e = r.chance(70) ? focusE : (long)r.below(NE), s = r.chance(70) ? focusS : (long)r.below(NS);
+    long e = r.chance(70) ? focusE : (long)r.below(NE), s = pairAC ? (r.chance(50) ? 0 : 2) : r.chance(70) ? focusS : (long)r.below(NS);
     if (o >= 3) top.emplace_back(tops[o], (long)r.below(o == 3 || o == 5 ? NL : NE), 0, 0, 0);
     else top.emplace_back(tops[o], e, s, (long)r.below(NL), (long)r.below(NK));
   }
   for (int k = 0; k < nreact; ++k) {
     int o = r.weighted(wr, 6);
-    long e = r.chance(70) ? focusE : (long)r.below(NE), s = r.chance(70) ? focusS : (long)r.below(NS);
+    long e = r.chance(70) ? focusE : (long)r.below(NE), s = pairAC ? (r.chance(50) ? 0 : 2) : r.chance(70) ? focusS : (long)r.below(NS);
     re.emplace_back(reacts[o], e, s, (long)r.below(NL), (long)r.below(8));
   }
   // interleave for readability: top-level ops first, reactions after (order within each kind is what matters)
